@@ -65,10 +65,11 @@ theorem orElse_none {a : Option String} {b : Unit → Option String} (h : a = no
   subst h; rfl
 
 theorem verdict_none {m : Mon} {l : Line} {o : Obs} (h0 : vRollback m o = none) (h1 : vPause m l o = none)
-    (h2 : vList m l o = none) (h2' : vListEv m l o = none) (h3 : vCap m l o = none) (h4 : vMig m l o = none) :
+    (h2 : vList m l o = none) (h2' : vListEv m l o = none) (h3 : vCap m l o = none) (h4 : vMig m l o = none)
+    (h5 : vUnpause m l o = none) :
     verdict m l o = none := by
   unfold verdict
-  rw [orElse_none h0, orElse_none h1, orElse_none h2, orElse_none h2', orElse_none h3, h4]
+  rw [orElse_none h0, orElse_none h1, orElse_none h2, orElse_none h2', orElse_none h3, orElse_none h4, h5]
 
 theorem vRollback_none {m : Mon} {o : Obs} (h : o.ok = false → m.prev = none ∨ m.prev = some o.st) :
     vRollback m o = none := by
